@@ -71,7 +71,7 @@ def run(ctx):
     files = own * 20 + gsel.sample(repo_m, min(len(repo_m), 400)) + repo_p
     if len(dictionary) < 40:
         ctx.inconc("keyword dictionary too small: %d" % len(dictionary))
-    n = ctx.n(700, 200000)
+    n = ctx.n(400, 200000)
     ctx.cov["rule"] = ("execution = (seed .mtest/.ptest file with placeholders bound, mutation kind); distinct = distinct sha1 of the mutated input; "
                        "non-trivial = the input differs from its bound seed")
     ctx.cov.update({"seed_files": len(set(files)), "dictionary_keywords": len(dictionary)})
